@@ -209,16 +209,24 @@ impl NameCfg {
     }
 }
 
+/// formatting with a format the value cannot serve (e.g. %H on a date) is an error, not a panic
+fn try_format(d: impl std::fmt::Display) -> Option<String> {
+    use std::fmt::Write;
+    let mut out = String::new();
+    write!(&mut out, "{d}").ok()?;
+    Some(out)
+}
+
 pub fn parse_ts(s: &str, fmt: &str) -> Option<i64> {
     if let Ok(dt) = NaiveDateTime::parse_from_str(s, fmt) {
         // re-format must reproduce the text (rejects sloppy parses such as missing padding)
-        if dt.format(fmt).to_string() == s {
+        if try_format(dt.format(fmt)).as_deref() == Some(s) {
             return Some(dt.and_utc().timestamp());
         }
         return None;
     }
     if let Ok(d) = NaiveDate::parse_from_str(s, fmt) {
-        if d.format(fmt).to_string() == s {
+        if try_format(d.format(fmt)).as_deref() == Some(s) {
             return Some(d.and_hms_opt(0, 0, 0)?.and_utc().timestamp());
         }
     }
